@@ -1,0 +1,38 @@
+//go:build verif
+
+package kubeeventsmanager
+
+import "sort"
+
+// Verification-only accessors (build tag "verif").
+
+// VerifInformer gives the harness the callbacks of one resource informer.
+type VerifInformer struct {
+	Namespace string
+	Name      string
+	Dynamic   bool
+	OnAdd     func(obj interface{}, isInInitialList bool)
+	OnUpdate  func(oldObj, newObj interface{})
+	OnDelete  func(obj interface{})
+}
+
+// VerifInformers lists static informers (in creation order) and then dynamic ones (sorted by namespace and name).
+func (m *monitor) VerifInformers() []VerifInformer {
+	res := make([]VerifInformer, 0)
+	for _, ri := range m.ResourceInformers {
+		res = append(res, VerifInformer{Namespace: ri.Namespace, Name: ri.Name, OnAdd: ri.OnAdd, OnUpdate: ri.OnUpdate, OnDelete: ri.OnDelete})
+	}
+	dyn := make([]VerifInformer, 0)
+	m.VaryingInformers.RangeValue(func(value []*resourceInformer) {
+		for _, ri := range value {
+			dyn = append(dyn, VerifInformer{Namespace: ri.Namespace, Name: ri.Name, Dynamic: true, OnAdd: ri.OnAdd, OnUpdate: ri.OnUpdate, OnDelete: ri.OnDelete})
+		}
+	})
+	sort.Slice(dyn, func(i, j int) bool {
+		if dyn[i].Namespace != dyn[j].Namespace {
+			return dyn[i].Namespace < dyn[j].Namespace
+		}
+		return dyn[i].Name < dyn[j].Name
+	})
+	return append(res, dyn...)
+}
